@@ -31,6 +31,8 @@ def main():
                 print("   ", l[:200])
     finally:
         subprocess.run(["git", "-C", "/repo", "checkout", "--", "."], check=True)
+        # evidence files and regenerated model parts were written from the patched tree: back to the committed ones
+        subprocess.run(["git", "-C", V, "checkout", "--", "evidence", "lean/Iox2/Gen"], check=False)
     json.dump(dict(id=sid, tier=tier, results=res), open(os.path.join(d, "result.json"), "w"), indent=1)
 
 
